@@ -1,6 +1,6 @@
 // replay for unit toon: encode/decode round trips through the real TOON encoder and reader over strings built from the characters that matter for quoting,
 // escaping and row scanning (quotes, backslashes, delimiters, control characters), as object values, inline arrays and tabular rows
-// (digits, signs, '.', 'e' are left out on purpose: number look-alikes are a separate matter, DESIGN 9)
+// (digits, signs, ".", "e" are left out here: number look-alikes have their own unit, toon_number)
 #include <jsoncons/json.hpp>
 #include <jsoncons_ext/toon/encode_toon.hpp>
 #include <jsoncons_ext/toon/decode_toon.hpp>
